@@ -144,7 +144,7 @@ def describe(tier, seed):
 def compare(rep, ep, factor, idn, got, kind):
     want = expected(idn, kind)
     ok = got[0] == "ok" and got[1] == want
-    rep.case((ep, factor, idn.get(factor, (idn["major"], idn["minor"])), idn["serial"], idn["state"], idn["product_code"]), outcome="ok" if ok else "bad")
+    rep.case((ep, factor, idn.get(factor, (idn["major"], idn["minor"])), idn["serial"], idn["state"], idn["product_code"]), outcome=("ok:" + factor) if ok else "bad")
     if not ok:
         diff = ""
         if got[0] == "ok" and isinstance(got[1], dict):
